@@ -879,6 +879,11 @@ func runCheck(specPath, tier, only string, workers int, noNative, trace bool) in
 						confirmed = containsStr(res[0].Failed, want)
 					}
 					how = "native replay: status=" + res[0].Status + " failed=" + strings.Join(res[0].Failed, ",") + " panic=" + res[0].Panic
+				} else if strings.Contains(raw, "fatal error:") {
+					// the native process died with an unrecoverable runtime error (e.g. out of memory)
+					confirmed = true
+					i := strings.Index(raw, "fatal error:")
+					how = "native replay crashed the process: " + strings.SplitN(raw[i:], "\n", 2)[0]
 				} else {
 					how = "native replay produced no outcome: " + tail(raw, 600)
 				}
